@@ -135,6 +135,11 @@ func (s *State) assume(t T, note string) {
 	if t.S == "true" {
 		return
 	}
+	for _, h := range s.PC {
+		if h.S == t.S {
+			return
+		}
+	}
 	s.PC = append(s.PC, t)
 	s.PCNote = append(s.PCNote, note)
 }
@@ -198,6 +203,7 @@ type Engine struct {
 	implCache map[string][]types.Type
 	objElem   map[int]types.Type
 	nIter     int
+	inProgress map[string]bool
 }
 
 type dtField struct {
@@ -213,7 +219,7 @@ type dynCon struct {
 }
 
 func NewEngine(prog *ssa.Program) *Engine {
-	return &Engine{prog: prog, declSet: map[string]bool{}, dtSet: map[string]string{}, dtFields: map[string][]dtField{}, dynSet: map[string]int{}, assumpt: map[string]bool{}, axiomSet: map[string]bool{}, implCache: map[string][]types.Type{}, objElem: map[int]types.Type{}}
+	return &Engine{prog: prog, declSet: map[string]bool{}, dtSet: map[string]string{}, dtFields: map[string][]dtField{}, dynSet: map[string]int{}, assumpt: map[string]bool{}, axiomSet: map[string]bool{}, implCache: map[string][]types.Type{}, objElem: map[int]types.Type{}, inProgress: map[string]bool{}}
 }
 
 func (e *Engine) note(a string) { e.assumpt[a] = true }
@@ -356,6 +362,17 @@ func (e *Engine) structSort(t types.Type, u *types.Struct) string {
 	if s, ok := e.dtSet[ts]; ok {
 		return s
 	}
+	if e.inProgress[ts] {
+		panic("recursive struct type " + ts)
+	}
+	e.inProgress[ts] = true
+	defer delete(e.inProgress, ts)
+	// compute field sorts first: a failure must not leave a partial declaration behind
+	var fs []dtField
+	for i := 0; i < u.NumFields(); i++ {
+		f := u.Field(i)
+		fs = append(fs, dtField{Name: f.Name(), Typ: f.Type(), Sort: e.sortOf(f.Type())})
+	}
 	name := "S_" + shortTypeName(t)
 	for i := 2; ; i++ {
 		clash := false
@@ -370,14 +387,10 @@ func (e *Engine) structSort(t types.Type, u *types.Struct) string {
 		name = fmt.Sprintf("S_%s%d", shortTypeName(t), i)
 	}
 	e.dtSet[ts] = name
-	var fs []dtField
 	var sb strings.Builder
 	fmt.Fprintf(&sb, "(declare-datatypes ((%s 0)) (((mk_%s", name, name)
-	for i := 0; i < u.NumFields(); i++ {
-		f := u.Field(i)
-		so := e.sortOf(f.Type())
-		fs = append(fs, dtField{Name: f.Name(), Typ: f.Type(), Sort: so})
-		fmt.Fprintf(&sb, " (%s_%s %s)", name, f.Name(), so)
+	for _, f := range fs {
+		fmt.Fprintf(&sb, " (%s_%s %s)", name, f.Name, f.Sort)
 	}
 	sb.WriteString("))))")
 	e.dtFields[name] = fs
@@ -461,6 +474,9 @@ func (e *Engine) reify(st *State, v Val, t types.Type) T {
 			panic("reify: pointer value for non-pointer type " + typeString(t))
 		}
 		if x.Nil.S == "true" {
+			if so == "Dyn" {
+				return T{S: "dyn_nil", So: "Dyn"}
+			}
 			return e.fresh("nilptr", so)
 		}
 		return e.reify(st, e.load(st, x), pt.Elem())
@@ -474,6 +490,9 @@ func (e *Engine) reify(st *State, v Val, t types.Type) T {
 		}
 		return T{S: fmt.Sprintf("(mk_%s %s %s)", so, arr.S, x.Len.S), So: so}
 	case *ArrV:
+		if so == SString {
+			return byteArrString(x)
+		}
 		// array value -> slice datatype
 		es := e.sortOf(x.Elem)
 		arr := e.fresh("arr", "(Array Int "+es+")")
@@ -486,6 +505,10 @@ func (e *Engine) reify(st *State, v Val, t types.Type) T {
 		return e.ifaceDyn(st, x)
 	case *MapV:
 		return e.reify(st, st.Heap[x.Obj], t)
+	case *OpaqueV:
+		if x.Tag == "any" {
+			return x.Data["dyn"].(T)
+		}
 	}
 	panic(fmt.Sprintf("reify: unsupported value %T for type %s", v, typeString(t)))
 }
@@ -571,6 +594,8 @@ func (e *Engine) reflect(st *State, x T, t types.Type) Val {
 		arr := T{S: fmt.Sprintf("(arr_%s %s)", so, x.S), So: "(Array Int " + es + ")"}
 		ln := T{S: fmt.Sprintf("(len_%s %s)", so, x.S), So: SInt}
 		o := e.newObj(st, arr)
+		e.objElem[o] = u.Elem()
+		st.assume(Ge(ln, IntLit(0)), "slice length >= 0")
 		return &SliceV{Back: o, Off: IntLit(0), Len: ln, Elem: u.Elem()}
 	case *types.Interface:
 		return &IfaceV{Sym: true, Dyn: x}
@@ -592,6 +617,19 @@ func (e *Engine) freshVal(st *State, hint string, t types.Type) Val {
 		return &CtxV{World: 0, Height: h, Time: tm}
 	}
 	if !e.modelled(t) {
+		if u, ok := t.Underlying().(*types.Struct); ok && !tsIsSpecial(ts) {
+			sv := &StructV{Typ: t}
+			for i := 0; i < u.NumFields(); i++ {
+				sv.F = append(sv.F, e.freshVal(st, u.Field(i).Name(), u.Field(i).Type()))
+			}
+			return sv
+		}
+		if p, ok := t.Underlying().(*types.Pointer); ok {
+			if _, isS := p.Elem().Underlying().(*types.Struct); isS && !tsIsSpecial(typeString(p.Elem())) {
+				o := e.newObj(st, e.freshVal(st, hint, p.Elem()))
+				return &PtrV{Nil: TFalse, Obj: o, Elem: p.Elem()}
+			}
+		}
 		return &OpaqueV{Tag: ts}
 	}
 	switch u := t.Underlying().(type) {
@@ -661,6 +699,16 @@ func tsIsSpecial(ts string) bool {
 	return false
 }
 
+func (e *Engine) sortable(t types.Type) (ok bool) {
+	defer func() {
+		if r := recover(); r != nil {
+			ok = false
+		}
+	}()
+	e.sortOf(t)
+	return true
+}
+
 // rangeAssume adds machine-integer range facts for a fresh term of type t (recursively through datatypes is NOT done;
 // nested fields get their ranges when they are read, see intRange).
 func (e *Engine) rangeAssume(st *State, x T, t types.Type) {
@@ -720,10 +768,17 @@ func (e *Engine) implementers(t types.Type) []types.Type {
 				if _, isI := nt.Underlying().(*types.Interface); isI {
 					continue
 				}
+				if _, isS := nt.Underlying().(*types.Struct); !isS {
+					continue
+				}
 				if types.Implements(nt, iface) {
-					res = append(res, nt)
+					if e.sortable(nt) {
+						res = append(res, nt)
+					}
 				} else if types.Implements(types.NewPointer(nt), iface) {
-					res = append(res, types.NewPointer(nt))
+					if e.sortable(nt) {
+						res = append(res, types.NewPointer(nt))
+					}
 				}
 			}
 		}
@@ -818,4 +873,28 @@ func (e *Engine) setPath(st *State, v Val, path []PathEl, nv Val, p *PtrV) Val {
 		return T{S: fmt.Sprintf("(store %s %s %s)", x.S, pe.Idx.S, nt.S), So: x.So}
 	}
 	panic(fmt.Sprintf("setPath: cannot descend into %T", v))
+}
+
+
+// byteArrString: a concrete-length byte array as an SMT String term.
+func byteArrString(x *ArrV) T {
+	var parts []T
+	var lit []byte
+	flush := func() {
+		if len(lit) > 0 {
+			parts = append(parts, T{S: smtStrLit(lit), So: SString, Segs: []Seg{{Kind: "const", Lit: lit, S: smtStrLit(lit)}}})
+			lit = nil
+		}
+	}
+	for _, el := range x.Elems {
+		t := el.(T)
+		if n, ok := isLit(t); ok {
+			lit = append(lit, byte(n))
+		} else {
+			flush()
+			parts = append(parts, app(SString, "str.from_code", t))
+		}
+	}
+	flush()
+	return Concat(parts...)
 }
